@@ -96,6 +96,7 @@ def run(ctx):
     # ---- K-gen: shape of the emitted code (dynamic) + source cross-check (static) -> Gen/RangeLoop.v
     dyn_path = os.path.join(vlib.BUILD, "gen", "rangeloop_dyn.json") if not vlib.PRIVATE else os.path.join(d, "shape.json")
     os.makedirs(os.path.dirname(dyn_path), exist_ok=True)
+    ctx.log("phase: gen: templates + grid program")
     rc, out = ctx.run([impl, "gen", "-dir", d, "-lits", os.path.join(d, "lits.txt"), "-shape", dyn_path], cwd=d, timeout=300)
     compiled = rc == 0
     if not compiled:
@@ -113,6 +114,7 @@ def run(ctx):
             ctx.broken("table-obligation(rangeloop.json)", str(ex))
 
     # ---- A
+    ctx.log("phase: prove")
     ok = ctx.prove("C04")
     for name in ("gen_shapes_full", "gen_shapes_defaults", "gen_shapes_nostep", "gen_ranges_full", "gen_ranges_defaults", "gen_ranges_nostep"):
         ctx.obligations += 1
@@ -120,6 +122,7 @@ def run(ctx):
     model = ctx.model("c04")
 
     # ---- B: build and run the compiled grid program
+    ctx.log("phase: go build + run")
     cases = ["G %d %d %d" % t for t in grid] + ["D %d %d %d" % t for t in defs] + ["L %d 0 0" % k for k in range(len(lits))]
     mcases = ["G %d %d %d" % t for t in grid] + ["D %d %d %d" % t for t in defs] + ["L %d %d %d" % t for t in lits]
     triples = grid + defs + lits
